@@ -89,7 +89,7 @@ def run(ctx):
                     continue
                 n += 1
                 cls, desc = classify_write(adt, field, w, ctx)
-                if (cls is None or (isinstance(cls, str) and cls.startswith("other"))) and w["how"] == "store":
+                if (cls is None or (isinstance(cls, str) and cls.startswith("other"))) and (w["how"] == "store" or (w["how"] == "call" and w.get("name") == "fill")):
                     from .common import join_store, elementwise_reset
                     js = join_store(ctx, m, field)
                     if js["form"] == "guarded-max":
@@ -112,22 +112,10 @@ def run(ctx):
         if m is None:
             continue
         selfp, otherp = ("param", 1, None), ("param", 2, None)
-        ws = [w for w in all_writes(ctx, m) if self_field(w) == field and w["how"] == "store" and not w.get("via")]
-        okm = False
-        desc = ""
-        if len(ws) == 1:
-            v = erase_param_names(ws[0]["value"])
-            desc = fmt(v)
-            if v[0] == "op" and v[1] == "BitOr":
-                okm = sorted(map(repr, v[2])) == sorted(map(repr, [("field", selfp, field), ("field", otherp, field)]))
-            elif v[0] == "call" and v[1].endswith("collect"):
-                e = elem_of(v[2][0])
-                cells = {repr(("elem", ("field", selfp, field))), repr(("elem", ("field", otherp, field)))}
-                if e[0] == "op" and len(e[2]) == 2:
-                    okm = {repr(e[2][0]), repr(e[2][1])} == cells
-                # zip of the two full iterators
-                zs = [s for s in subterms(v) if s[0] == "zip"]
-                okm = okm and len(zs) == 1 and {repr(zs[0][1]), repr(zs[0][2])} == {repr(("field", selfp, field)), repr(("field", otherp, field))}
+        from .common import cellwise_merge
+        cm = cellwise_merge(ctx, m, field)
+        okm = cm["form"] is not None
+        desc = cm["why"]
         pem = PathEnumerator(m, prog, ctx.summ)
         nret = nskip = 0
         for p in pem.paths():
@@ -136,7 +124,7 @@ def run(ctx):
             nret += 1
             if not [e for e in p.events if e["kind"] == "write" and self_field(e) == field and e["how"] == "store"]:
                 nskip += 1
-        if nskip:
+        if nskip and cm["form"] != "in-place":      # (the in-place loop form stores in every iteration of a loop run to exhaustion)
             okm = False
             desc = "%d of %d returning paths skip the combination; " % (nskip, nret) + desc
         ctx.check(okm, "R06-merge-cellwise", key, m, "merge combines self.%s and other.%s cell by cell over the full length (%s)" % (field, field, desc[:100]),
@@ -211,9 +199,14 @@ def run(ctx):
                             gd = fv(fs, mk("Eq", mk("Rem", cnt, ("field", otherp, "bucketsize")), const(0))) is True and fv(fs, mk("Lt", const(0), cnt)) is True
                 okc = inc_ok and gd and loop_exits_only_on_exhaustion_or_err(cu, h)
                 why = "bucket counter init=%s update=%s guard-ok=%s" % (fmt(init), fmt(upd), gd)
+            elif okc and i1 == mk("Div", ("enum_idx", ("field", otherp, "table")), ("field", otherp, "bucketsize")):
+                # closed form of the same counter: bucket = slot index / bucketsize
+                h = next((hh for hh in cu.loop_heads() if bi in cu.natural_loop(hh)), None)
+                okc = h is not None and loop_exits_only_on_exhaustion_or_err(cu, h)
+                why = "closed-form bucket index, but the loop can be left early"
             elif okc:
                 okc = False
-                why = "bucket index %s is not a loop-carried counter" % fmt(i1)
+                why = "bucket index %s is neither a loop-carried counter nor slot / bucketsize" % fmt(i1)
         ctx.check(okc, "R06-cuckoo-transfer", cu.key, cu, "every non-zero slot f of other.table is re-inserted with i1 = slot/bucketsize (counter) and i2 = i1 ^ hash(f)",
                   "cuckoo union does not transfer every occupied slot with its own bucket: %s" % why)
 
